@@ -539,7 +539,7 @@ def run(chk):
         L.require_witnesses(chk, 'MC_AmpLaw', head, ['ProbeSaturated', 'ProbePadded', 'ProbeExtended', 'ProbePaddedSat',
                                                       'ProbeRelief', 'ProbeNegativeGain'], 'c04-probe')
     # ---- B2
-    pins = 'MCPinTotsQuick' if chk.tier == 'quick' else 'MCPinTots'
+    pins = 'MCPinTotsQuick' if chk.tier == 'quick' else 'MCPinTotsReplay'
     r2 = tlc.run('MC_AmpLaw', cfg_text=cfg_text(emit, emit=True, pins=pins), timeout=1800, tag='c04-emit')
     chk.add_mc(f'emit histories MaxCross={emit} PinTots={pins}', r2)
     if not r2.emitted:
